@@ -61,7 +61,7 @@ def gen_history(rng, tier):
 def body_c10(tier, seed, rep, only_prop=False, scale=1):
     import ref_export as RE
     rng = rng_for(seed, "c10")
-    n = (60 if tier == "quick" else 800) * scale
+    n = (200 if tier == "quick" else 1500) * scale
     hist = [gen_history(rng, tier) for _ in range(n)]
     cache = {}
     jobs = sorted({json.dumps([s, b], sort_keys=True) for specs, bks, _ in hist for s, b in zip(specs, bks)})
